@@ -138,7 +138,7 @@ func init() {
 				c.Count("extra-outcomes", e.Wire+"/"+cls+"/"+rr.Kind)
 				switch rr.Kind {
 				case "panic":
-					if isKnownPanic(r, e) {
+					if isKnownPanic(r, e, rr.Msg) {
 						c.Count("known-panic", "K13-addl-null")
 						continue
 					}
@@ -195,7 +195,8 @@ func contains(xs []string, s string) bool {
 }
 
 // isKnownPanic: K13 — a type with typed additionalProperties receives null (directly, or as an array
-// element / property value): mapstructure.Decode panics on the nil raw map.
-func isKnownPanic(r *core.PResult, e core.ExtraDoc) bool {
-	return strings.Contains(string(r.SchemaJSON), `"additionalProperties":{`) && strings.Contains(e.Doc, "null")
+// element / property value): mapstructure.Decode panics on the nil raw map (recognised by its message too).
+func isKnownPanic(r *core.PResult, e core.ExtraDoc, msg string) bool {
+	return strings.Contains(string(r.SchemaJSON), `"additionalProperties":{`) && strings.Contains(e.Doc, "null") &&
+		strings.Contains(msg, "reflect.Set: value of type map[string]interface")
 }
